@@ -16,8 +16,6 @@
 
 using namespace pbt;
 
-extern "C" int pt_aws_decode_utf8(struct aws_byte_cursor bytes, const struct aws_utf8_decoder_options *options);
-
 // ------------------------------------------------------------------ harness-side encoder
 static int natural_len(uint32_t cp) { return cp < 0x80 ? 1 : cp < 0x800 ? 2 : cp < 0x10000 ? 3 : 4; }
 static std::string enc_cp(uint32_t cp, int len = 0) {
@@ -263,8 +261,6 @@ static void run(const Case &c, Ctx &ctx) {
         Outcome ref = one_shot(aws_decode_utf8, text, fail_at, true);
         PBT_CHECK(ref.rc == AWS_OP_SUCCESS || ref.rc == AWS_OP_ERR, "aws_decode_utf8 returned %d", ref.rc);
         Outcome plain = one_shot(aws_decode_utf8, text, 0, false);
-        Outcome pt = one_shot(pt_aws_decode_utf8, text, fail_at, true);
-        same("the portable build's one-shot call", text, ref, pt);
         if (fail_at == 0 || ref.cps.size() < fail_at) {
             PBT_CHECK(plain.rc == ref.rc && plain.err == ref.err, "text %s: verdict with a succeeding callback (rc %d err %d) differs from the verdict without callback (rc %d err %d)",
                       hex(text).c_str(), ref.rc, ref.err, plain.rc, plain.err);
